@@ -135,6 +135,7 @@ func (c *containerServer) handleExecve(cmd *execCmd, msg unixsocket.Msg) error {
 			if _, _, err := c.recvCmd(); err != nil {
 				return err
 			}
+			verifEvent("init", "eatkill")
 		}
 		return nil
 	}
@@ -191,6 +192,7 @@ func (c *containerServer) handleExecveStarted(pid int) error {
 		if _, _, err := c.recvCmd(); err != nil { // kill cmd received
 			return err
 		}
+		verifEvent("init", "eatkill")
 	}
 	<-c.waitAllDone
 	return nil
